@@ -11,6 +11,7 @@ import rsmcoef
 import t3_util as T3
 import v4_util as V4
 import u4_util as U4
+import w4_util as W4
 from fracexec import frac_str, frac_list
 
 MODULE = 'UwgVerif.Props.C16'
@@ -391,6 +392,61 @@ def float_solver_oracles(chk, quick):
                mismatches=len(bad), branches=br)
 
 
+def float_tall_columns(chk, quick):
+    """Float level, plain package: RSMDef.diffusion_equation on columns of 3 .. 1000 levels - in particular on both
+    sides of 256 / 257 / 258 levels - with the whole statement: lowest level kept, top two levels equal, no new
+    extreme, level-by-level balance of the whole step (= exact solution + conservation)."""
+    core.repo_python_path()
+    import importlib
+    R = importlib.import_module('uwg.RSMDef').RSMDef
+    rng = chk.rng
+    n, bad, br = 0, [], {}
+    for nz in (W4.TALL_NZ_QUICK if quick else W4.TALL_NZ_THOROUGH):
+        for _ in range(2 if quick else 8):
+            cs = W4.gen_tall_float(rng, nz)
+            try:
+                xs = R.diffusion_equation(nz, cs['dt'], list(cs['co']), list(cs['da']), list(cs['daz']),
+                                          list(cs['cd']), list(cs['dz']))
+            except Exception as e:  # noqa: BLE001 - an admissible call must return
+                xs, msg = None, 'admissible call raises %s: %s' % (type(e).__name__, e)
+            n += 1
+            br['nz=%d' % nz] = br.get('nz=%d' % nz, 0) + 1
+            if xs is not None:
+                co = cs['co']
+                lo, hi = min(co[:nz - 1]), max(co[:nz - 1])
+                dn = max(2 * cs['daz'][j] * cs['cd'][j] / (cs['dz'][j] + cs['dz'][j - 1]) * cs['dt'] /
+                         min(cs['dz'][j], cs['dz'][j - 1]) / min(cs['da']) for j in range(1, nz))
+                tol = max(1e-12, EPS64 * dn * nz) * max(abs(v) for v in co)
+                msg = None
+                if len(xs) != nz or not all(v == v and abs(v) != float('inf') for v in xs):
+                    msg = 'non-finite or mis-sized profile'
+                elif xs[0] != co[0]:
+                    msg = 'lowest level %r != co[0] %r' % (xs[0], co[0])
+                elif xs[nz - 1] != xs[nz - 2]:
+                    msg = 'top two levels differ: x[nz-2] = %r, x[nz-1] = %r' % (xs[nz - 2], xs[nz - 1])
+                elif not all(lo - tol <= v <= hi + tol for v in xs):
+                    i = [not (lo - tol <= v <= hi + tol) for v in xs].index(True)
+                    msg = 'level %d = %r outside [%r, %r] of the old profile (tolerance %.1e K)' % (i, xs[i], lo, hi, tol)
+                else:
+                    msg = V4.whole_step_msg(nz, cs['dt'], co, list(xs), cs['da'], cs['daz'], cs['cd'], cs['dz'], rel=1e-9)
+            if msg and len(bad) < 3:
+                bad.append((dict(cs, float_inputs=True), 'column of %d levels: %s' % (nz, msg)))
+            elif msg:
+                bad.append(None)
+    for item in [b for b in bad if b][:3]:
+        chk.violation('impl-violation', 'C16 oracle on RSMDef.diffusion_equation, tall columns (doubles)', case=item[0],
+                      observed=item[1], expected='lowest level kept, top two levels equal, no new extreme, every interior '
+                                                 'level balances dt x (flux in - flux out) (1e-9 relative)')
+    chk.direct('float-oracle(RSMDef.diffusion_equation, columns of 3..1000 levels)', n, n,
+               'plain float diffusion_equation on admissible columns of %s levels (the minimum, the shipped 18, and both '
+               'sides of 128 / 256 / 257 / 258 / 512 - sizes at which a byte, CPython\'s shared small integers -5..256 or a '
+               'power of two end - up to 1000; random spacings 0.5..40 m, densities 0.6..1.3, coefficients 0..30 with '
+               'zeros): lowest level and top-two-equal exact, bounds within max(1e-12, 64 ulp x diffusion number x nz), '
+               'and level by level da dz (new - old) = dt x (flux in - flux out) of the new profile (1e-9), whose sum is '
+               'the conservation clause' % (list(W4.TALL_NZ_QUICK if quick else W4.TALL_NZ_THOROUGH),),
+               mismatches=len(bad), branches=br)
+
+
 # ----------------------------------------------------------------------------- protocol
 def line_diff(cs):
     return 'diff nz=%d dt=%s co=%s da=%s daz=%s cd=%s dz=%s' % (
@@ -546,6 +602,8 @@ def case_json(cs):
 
 def case_unjson(d):
     def u(v):
+        if isinstance(v, float):
+            return F(v)          # a double of a float-level finding, taken at its exact binary value
         if isinstance(v, str):
             try:
                 return F(v)
@@ -554,11 +612,11 @@ def case_unjson(d):
         if isinstance(v, list):
             return [u(x) for x in v]
         return v
-    return {k: (v if k in ('kind', 'cdk', 'cok', 'nz', 'n') else u(v)) for k, v in d.items()}
+    return {k: (v if k in ('kind', 'cdk', 'cok', 'nz', 'n', 'tall', 'mag') else u(v)) for k, v in d.items()}
 
 
 # ----------------------------------------------------------------------------- live check
-def live_profiles(chk, ndays=1, coef_rec=None, hyp_rec=None):
+def live_profiles(chk, ndays=1, coef_rec=None, hyp_rec=None, setup=None):
     """Run a short real (float) simulation with a recording wrapper around
     RSMDef.diffusion_equation and check bottom / top / bounds on every call.
     Tolerance 1e-9*max|T| (rounding can never trip it: the bottom and top identities are exact in
@@ -616,6 +674,8 @@ def live_profiles(chk, ndays=1, coef_rec=None, hyp_rec=None):
                                 epw_path=os.path.join(res, 'SGP_Singapore.486980_IWEC.epw'),
                                 new_epw_dir=out)
         m.nday = ndays
+        if setup is not None:
+            setup(m)
         m.generate()
         m.simulate()
     except Exception as e:      # the recorded calls are still evaluated; a crash is noted
@@ -785,6 +845,10 @@ def run(chk):
     cases += [gen_diff(chk.rng, nz=chk.rng.randint(3, 24), mag=m) for m in MAG_KINDS
               for _ in range(20 if quick else 200)]
     cases += [gen_malformed(chk.rng) for _ in range(300 if quick else 3000)]
+    # tall columns, exact: both sides of 256 / 257 / 258 levels (small numbers keep the rational elimination cheap)
+    tall_nz = (129, 256, 257, 258, 259, 300) if quick else tuple(
+        nn for nn in W4.TALL_NZ_THOROUGH if 60 < nn <= 640) + (256, 257, 258, 259, 1000)
+    cases += [W4.gen_tall_exact(chk.rng, nn) for nn in tall_nz]
     results, caps = [], []
     for cs in cases:
         cap = []
@@ -792,7 +856,7 @@ def run(chk):
         caps.append(cap)
     pairs = [(line_diff(cs), fmt(r)) for cs, r in zip(cases, results)]
     kinds = {line_diff(cs): cs['kind'] if cs['kind'] != 'valid' else 'valid/cd-' + cs['cdk'] +
-             ('/' + cs['mag'] if cs.get('mag') else '') for cs in cases}
+             ('/' + cs['mag'] if cs.get('mag') else '') + ('/' + cs['tall'] if cs.get('tall') else '') for cs in cases}
     dn = [diffusion_number(cs) for cs in cases if cs['kind'] == 'valid' and cs.get('mag')]
     chk.measurements['diffusion_number_range(small / large families)'] = {
         'smallest_nonzero': float(min(v[0] for v in dn if v[0] > 0)), 'largest': float(max(v[1] for v in dn)),
@@ -806,8 +870,10 @@ def run(chk):
              'negative coefficients, two simultaneous faults); steps written in very small / very large numbers '
              '(weak mixing at every level or only aloft, cd x 1e-3..1e-30; a very short step, dt x 1e-3..1e-30; a '
              'very coarse / very fine grid, dz x 1e3..1e12 / 1e-3..1e-10; cd x 1e3..1e20): the diffusion number '
-             'K*dt/dz^2 ranges over sixty orders of magnitude; exact equality of the rational '
-             'profile or of the error class; non-trivial = non-error result',
+             'K*dt/dz^2 ranges over sixty orders of magnitude; tall columns in small numbers (spacings 1..10 m, integer '
+             'kelvins) with %s levels: both sides of 256 / 257 / 258 (branches .../tall/nz<=256, nz=257, nz>=258); '
+             'exact equality of the rational '
+             'profile or of the error class; non-trivial = non-error result' % (sorted(set(tall_nz)),),
         classify=lambda line, impl: kinds.get(line, '?'))
     bad = 0
     for cs, r, cap in zip(cases, results, caps):
@@ -865,6 +931,7 @@ def run(chk):
                              for k in sorted(set(s['kind'] for s in systems))})
 
     float_solver_oracles(chk, quick)
+    float_tall_columns(chk, quick)
 
     # ---- live profiles (floats; sanity only, with a tolerance that rounding cannot reach)
     coef_rec, hyp_rec = [], []
@@ -883,6 +950,29 @@ def run(chk):
                'every call of RSMDef.diffusion_equation during a real float simulation '
                '(initialize_singapore.uwg): bottom, top and bounds within 1e-9*max|T|',
                mismatches=len(badl), branches=shapes)
+    if not quick:
+        # the same through the public model with a FINER mesoscale height file (UWG.Z_MESO_PATH is what the model hands
+        # to RSMDef(..., z_meso_path)): 0.5 m levels, so the 150 m reference height is level 301
+        fine = os.path.join(chk.work(), 'z_meso_live_fine.txt')
+        W4.write_z_meso(fine, 0.5, 320.0)
+        rec2, bad2, shapes2, crash2 = live_profiles(chk, ndays=1, setup=lambda m: setattr(m, 'Z_MESO_PATH', fine))
+        if crash2:
+            chk.notes.append('live simulation with the fine height file stopped early with %s after %d diffusion calls' % (
+                crash2, len(rec2)))
+        for k, msg, co, x in bad2[:2]:
+            chk.violation('impl-violation', 'live vdm profile (float run, Singapore, Z_MESO_PATH = a file with 0.5 m '
+                          'levels, call %d)' % k,
+                          case={'run': 'initialize_singapore.uwg, 1 day, m.Z_MESO_PATH = height file 0, 0.5, .. 320 m then '
+                                       'stretched by 1.25 up to 1500 m', 'levels': len(co), 'co (lowest 6, top 3)': co[:6] + co[-3:],
+                                'result (lowest 6, top 3)': x[:6] + x[-3:], 'model stopped with': crash2},
+                          observed=msg, expected='bottom = forcing temperature, top two equal, no new extremum '
+                                                 '(tolerance 1e-9*max|T|)')
+        chk.direct('live-profiles(RSM.vdm, finer z_meso file through UWG.Z_MESO_PATH)', len(rec2), len(rec2),
+                   'every call of RSMDef.diffusion_equation during a real float simulation whose mesoscale height file '
+                   'has 0.5 m levels (rural column of 301 levels, urban column accordingly): bottom, top and bounds '
+                   'within 1e-9*max|T|', mismatches=len(bad2), branches=shapes2)
+        if not rec2 and not crash2:
+            raise core.Infra('the live run with the fine height file never called diffusion_equation')
     # live diffusion_coefficient: min(Kt) >= 0, te >= 0.01, grid hypotheses at the real call site
     badc = []
     lb = {}
